@@ -29,6 +29,7 @@ Open Scope string_scope.
 Definition check := ViewsCheck.check gen_cfg.
 """
 
+# Wrap.v carries splice/freeze/session.sql soundness and the package C13_proved
 DEPS = ["Base/Val.v", "Base/Expr.v", "Base/Sort.v", "Sql/Block.v", "Sql/Norm.v",
         "C13/Query.v", "C13/Splice.v", "C13/Session.v", "C13/Wrap.v", "C13/ViewsCheck.v"]
 
@@ -48,6 +49,7 @@ SIG_HIJACK = "C13/user-cte-named-like-registered-view-is-hijacked"
 SIG_CAPTURE = "C13/user-cte-name-captures-cte-embedded-in-view-chain"
 SIG_STAR = "C13/select-star-over-uncached-table-keeps-star-column"
 SIG_DUPCTE = "C13/identical-select-texts-in-one-query-give-duplicate-cte-name"
+SIG_ALIASREF = "C13/select-alias-shadowing-an-input-column-is-expanded-into-where-while-schema-cache-empty"
 SIG_ALIAS = "C13/column-alias-equal-to-a-cte-name-is-renamed-to-the-cte-hash"
 SIG_SELFREF = "C13/view-shadowing-the-table-it-reads-is-spliced-into-its-own-chain"
 SIG_UNRESOLVED = "C13/unqualified-column-over-uncached-table-unresolvable-once-schema-cache-nonempty"
@@ -201,6 +203,23 @@ def sq_coq(q) -> str:
 
 def query_coq(q) -> str:
     return "(mkQuery " + listlit([f"({strlit(n)}, {sq_coq(b)})" for n, b in q["ctes"]]) + " " + sq_coq(q["main"]) + ")"
+
+
+def selfref_cte(q) -> bool:
+    """some CTE (transitively) reads a CTE name of the same list that leads back to it: DuckDB's treatment of such lists when
+    the cycle is not reached from the main SELECT is not part of the engine model"""
+    names = [n.lower() for n, _ in q["ctes"]]
+    deps = {n.lower(): {m.lower() for m in sq_names(b) if m.lower() in names} for n, b in q["ctes"]}
+    for n in names:
+        seen, todo = set(), [n]
+        while todo:
+            for m in deps.get(todo.pop(), ()):
+                if m == n:
+                    return True
+                if m not in seen:
+                    seen.add(m)
+                    todo.append(m)
+    return False
 
 
 def from_names(f):
@@ -480,6 +499,27 @@ class HGen:
                 if cs:
                     sq = ("sel", sq[1], sq[2], [(("col", c), c) for c in cs], sq[4])
             return sq_sql(sq).lower()
+        def aliasref(sq):
+            """an output alias (not the identity `c AS c`) that WHERE / GROUP BY / a later item mentions unqualified"""
+            hit = False
+            if sq[0] == "sel" and sq[3]:
+                seen = {}
+                for e, a in sq[3]:
+                    if any(c in seen for c in rel.e_cols(e)):
+                        hit = True
+                    if e != ("col", a):
+                        seen[a] = e
+                if any(c in seen for x in sq[2] for c in rel.e_cols(x)):
+                    hit = True
+            elif sq[0] == "agg":
+                al = {a for _, _, a in sq[4]} | {a for c, a in sq[3] if c != a}
+                if any(c in al for x in sq[2] for c in rel.e_cols(x)) or any(c in al for c, _ in sq[3]):
+                    hit = True
+            f = sq[1]
+            inner = [f[1]] if f[0] == "sub" else [x[1] for x in (f[1], f[3]) if x[0] == "sub"] if f[0] == "join" else []
+            return hit or any(aliasref(i) for i in inner)
+        if not self.cache and (aliasref(q["main"]) or any(aliasref(b) for _, b in q["ctes"])):
+            cands.append(SIG_ALIASREF)
         if q["ctes"] or any(self.views[n]["embedded"] for n in real_view_refs):
             cands.append(SIG_DUPCTE)        # accepted only together with DuckDB's `Duplicate CTE name`
         aliases = [a.lower() for a in (([a for _, a in q["main"][3]] if q["main"][0] == "sel" and q["main"][3] else []) +
@@ -563,6 +603,7 @@ class HGen:
             text = query_sql(q)
             star = SIG_STAR in sigs
             self.emit(["sql", text], f"(SSql {query_coq(q)})", "sql", sig, f"session.sql({text!r})", sigs)
+            self.meta[-1]["selfref_cte"] = selfref_cte(q)
             self.push(out, self.embedded_of(q), star=star, taint=sig if sig != SIG_STAR else None, reads=self.reads_of(q))
             return
         if k < 0.74:
@@ -659,6 +700,8 @@ CORPUS = [
     [("sqlq", {"ctes": [], "main": ("sel", ("name", "bt"), [("bin", "Gt", ("col", "q"), ("lit", 6))], [(("col", "a"), "a")], False)}),
      ("reg", "bt", 5), ("table", "BT"),
      ("sqlq", {"ctes": [], "main": ("sel", ("name", "bt"), [], [(("col", "a"), "a")], False)})],
+    [("sqlq", {"ctes": [], "main": ("sel", ("name", "bt"), [("bin", "Gt", ("col", "a"), ("lit", 1))],
+                                    [(("bin", "Add", ("col", "a"), ("lit", 1)), "a")], False)})],
     [("reg", "v", 0), ("sqlq", {"ctes": [("c2", ("sel", ("name", "v"), [], [(("col", "a"), "a")], False))],
                                 "main": ("sel", ("name", "c2"), [], [(("col", "a"), "c2")], False)})],
     [("reg", "v", 0), ("reg", "v", 1), ("sqlq", {"ctes": [], "main": ("sel", ("name", "v"), [], None, False)}),
@@ -867,7 +910,8 @@ def run(ctx: core.Ctx):
                     "impl": short(o["impl"]), "engine_oracle": short(o["oracle"]),
                     "verdict(impl=model,impl=spec,model=spec,in_domain,engine=spec,alias_exact)": v[6 * i: 6 * i + 6],
                     "worker_steps": h["steps"][: i + 1], "coq_case": it if len(it) < 6000 else it[:6000] + "..."}
-            if not es:
+            beyond = any(x in m["sigs"] and accepted(x, False, o) for x in (SIG_DUPCTE, SIG_SELFREF, SIG_ALIAS))
+            if not es and not m.get("selfref_cte"):
                 engine_fail.append(desc)
             if not isp or (es and not same_engine):
                 n_dev += 1
@@ -883,7 +927,7 @@ def run(ctx: core.Ctx):
                           (":shape=" + m["sigs"][0].split("/")[1][:24] if m["sigs"] else "")
                 hist_sig[sig] = hist_sig.get(sig, 0) + 1
                 ctx.deviation(sig, what_of(sig, o), desc)
-            elif not im and ax:
+            elif not im and ax and not beyond:
                 model_fail.append(desc)
             if dom and not ms:
                 thm_fail.append(desc)
@@ -902,14 +946,15 @@ def run(ctx: core.Ctx):
         ctx.broken("T3:spec-vs-engine", f"{len(engine_fail)} steps where DuckDB's own answer differs from the Coq spec "
                    f"(engine conformance of C13/Query.v); first: {engine_fail[0]['step']}", data=engine_fail[:5])
     if thm_fail and proved:
-        ctx.broken("theorem-vs-evaluation", f"{len(thm_fail)} in-domain steps where model and spec evaluate differently; "
-                   f"first: {thm_fail[0]['step']}", data=thm_fail[:5])
+        ctx.broken("domain-vs-evaluation", f"{len(thm_fail)} steps where the premises of the theorems hold (for this and all "
+                   f"earlier steps of the history: no_capture, fresh CTE names, right and complete schema cache, no `*` column) "
+                   f"but model and spec evaluate differently; first: {thm_fail[0]['step']}", data=thm_fail[:5])
     ctx.coverage.update({
         "evaluations": n_steps, "distinct_nontrivial": n_nontriv,
         "rule": "evaluation = one step of one history, compared four ways (implementation, Coq model, Coq spec, DuckDB with "
                 "materialised frames); histories are distinct by their step list; non-trivial = the history contains a "
                 "session.sql step over registered views whose engine answer is non-empty",
-        "histories": len(kept), "steps_in_theorem_domain": n_dom, "deviating_steps": n_dev,
+        "histories": len(kept), "steps_with_all_theorem_premises_true": n_dom, "deviating_steps": n_dev,
         "steps_not_judged_after_use_of_a_frame_the_engine_rejects": n_skipped,
         "histogram_history_length": hist_len, "histogram_step_kind": hist_kind, "histogram_query_shape": hist_shape,
         "histogram_impl_exception": hist_err, "histogram_deviation_signature": hist_sig,
@@ -971,6 +1016,10 @@ def what_of(sig, o):
         return ("a temp view that shadows a real table and whose definition reads that table (e.g. a filtered copy registered "
                 "under the table's name): a query naming the view with the same alias as the reference inside the view's own "
                 "CTE makes the splice rewrite that inner reference too -- DuckDB reports a circular CTE reference")
+    if sig == SIG_ALIASREF:
+        return ("while the schema cache is empty (fresh session, no view registered, no session.table call) sqlglot's qualify "
+                "expands references to select aliases before resolving columns: in session.sql('select a + 1 as a from t where "
+                "a > 1') the WHERE column a becomes (a + 1) -- wrong rows without an error; an aggregate alias lands in WHERE")
     if sig == SIG_ALIAS:
         return ("a column alias of the main SELECT that equals the name of a CTE of the same query is renamed together with the "
                 "CTE when the user's CTE names are replaced by crc32 names: the result column is called t<digits>")
